@@ -342,3 +342,18 @@ def fake_open_factory(path, content, log):
             raise FileNotFoundError(file)
         return FakeFile(content)
     return fake_open
+
+
+def concrete_call(f, *args):
+    """realise small symbolic integers (the solver enumerates their values, one path each) and run f natively:
+    used where the data are concrete and only the choice of operations is symbolic"""
+    try:
+        from crosshair.core import realize
+        from crosshair.tracers import NoTracing, is_tracing
+    except Exception:
+        return f(*args)
+    if not is_tracing():
+        return f(*args)
+    vals = [realize(a) for a in args]
+    with NoTracing():
+        return f(*vals)
